@@ -138,6 +138,8 @@ def run(ck, P):
                                                          "a borrowed pointer: the holder can outlive the object it names (no reference is taken)"))
     # bulk copies: memcpy(fresh, template, sizeof(R)) copies R's ref-counted pointer fields as borrowed pointers; each must be
     # re-stored as a counted reference (or NULL) on every path that hands the fresh object out
+    INS0 = {"m_map_put": 2, "m_bst_insert": 1, "m_queue_enqueue": 1, "m_list_insert": 1, "m_stack_push": 1}
+
     def _flat(rec, prefix=""):
         out = []
         r = P.record(rec)
@@ -166,20 +168,56 @@ def run(ck, P):
             exm = rules.Expander(f, stable=False)
             badc = None
             np_ = 0
+            def _escapes(e):
+                # the copy leaves the function: returned, written to a pipe by address, or put into a container
+                if e.kind == "ret" and e.e is not None and S(e.e) == dn:
+                    return True
+                if e.kind == "call" and e.callee in ("write",) and len(e.args) > 1 and S(e.args[1]) == "&" + dn:
+                    return True
+                return e.kind == "call" and e.callee in INS0 and S(e.args[INS0[e.callee]]) == dn
             for path in f.paths():
                 evs = list(rules.path_events(f, path))
-                if mc not in evs or not any(e.kind == "ret" and e.e is not None and S(e.e) == dn for e in evs):
+                if mc not in evs:
+                    continue
+                after = evs[evs.index(mc) + 1:]
+                esc = [k_ for k_, e in enumerate(after) if _escapes(e)]
+                if not esc:
                     continue
                 np_ += 1
-                rest = evs[evs.index(mc) + 1:]
+                rest = after[:esc[0]]
                 for fp in flds:
                     st_ = [e for e in rest if e.kind == "assign" and e.e["op"] == "=" and S(e.lhs) == "%s->%s" % (dn, fp)]
                     if not st_ or not all(exm.at(e, e.rhs).startswith("m_mem_ref(") or exm.at(e, e.rhs) == "NULL" for e in st_):
                         badc = (fp, path)
+            ck.need(np_ > 0, "the bulk copy in %s never leaves the function on any enumerated path" % f.name)
             ck.ob("C04.2-REFPTR-STORE", f.site("memcpy(%s, …, sizeof(%s))" % (dn, rec)), badc is None and np_ > 0,
                   "%d path(s) hand out the copy; the copied ref-counted pointers %s are each re-stored as counted references" % (np_, flds) if badc is None else
                   "the copy keeps the template's '%s' as a borrowed pointer on a path that hands it out: the in-flight object can outlive what it names "
                   "(no reference is taken)" % badc[0], path=rules.fmt_path(f, badc[1]) if badc else None)
+    # container inserts: a ref-counted object put into a container that releases its elements (mem_dtor) goes in with a reference
+    # of its own — m_mem_ref(x), a fresh object, or the owned parameter of a consuming function
+    INS = {"m_map_put": 2, "m_bst_insert": 1, "m_queue_enqueue": 1, "m_list_insert": 1, "m_stack_push": 1}
+    for ev in P.calls_to(set(INS)):
+        f = ev.fn
+        if not f.unit.startswith("Lib/core/"):
+            continue
+        a_ = ev.args[INS[ev.callee]]
+        at_ = (strip(a_) or {}).get("t", "")
+        inner_t = at_
+        sa_ = strip(a_)
+        if sa_["k"] == "call" and sa_.get("callee") == "m_mem_ref" and sa_["args"]:
+            inner_t = strip(sa_["args"][0]).get("t", "")
+        if not (at_ in RT or inner_t in RT):
+            continue
+        nst += 1
+        ck.analysed(f)
+        xs = rules.Expander(f, stable=False).at(ev, a_)
+        okc = xs.startswith("m_mem_ref(") or any(xs.startswith(fr + "(") for fr in FRESH) or \
+            (sa_["k"] == "var" and sa_.get("vk") == "param" and f.name in CONSUMERS)
+        ck.ob("C04.2-REFPTR-STORE", f.site("%s(%s, %s)" % (ev.callee, _tail(S(ev.args[0])), S(a_))), okc,
+              "'%s' goes into %s %s" % (S(a_), S(ev.args[0]), "with a reference of its own / as a fresh object" if okc else
+                                        "as a borrowed pointer: the container releases it when cleared, so the object loses a reference it never received "
+                                        "(freed under its other holders)"))
     for ev in P.calls_to("m_thpool_add"):
         if ev.fn.unit.startswith("Lib/core/"):
             nst += 1
@@ -272,6 +310,22 @@ def run(ck, P):
                       "fresh object '%s' (line %d) is dropped on this path without being stored or released: leak" % (var, ev.line),
                       path=rules.fmt_path(f, bad) if bad else None)
     ck.need(nown >= 8, "only %d allocation sites bound to locals found" % nown)
+    # the other end of a hand-over: a function that takes ownership of a container parameter releases it on every path
+    # (call_pubsub_cb owes its callers the m_queue_free of the event queue they built)
+    for (fname, pidx, rel) in (("call_pubsub_cb", 1, "m_queue_free"),):
+        f = P.fn(fname)
+        ck.analysed(f)
+        pn_ = f.params[pidx]["name"]
+        rl = [e for e in f.calls(rel) if S(e.args[0]) == "&" + pn_]
+
+        def step_rel(st, ev, rl=rl):
+            return st | {"released"} if ev in rl else st
+        INr = rules.tag_analysis(f, step_rel, must=True)
+        okr_ = bool(rl) and f.exit in INr and "released" in INr[f.exit]
+        ck.ob("C04.3-OWN", f.site("consumes %s" % pn_), okr_,
+              "every path through %s releases the %s it was handed (%s)" % (fname, pn_, rel) if okr_ else
+              "%s can return without %s(&%s): its callers built that queue for it and never release it themselves — the queue (and the events in it) "
+              "leak on that path" % (fname, rel, pn_))
 
     # ------------------------------------------------------------------ 4. nullable fields (contradiction rule)
     ck.rule("C04.4-NULLABLE", "R-NULLABLE: for the pointer fields of core structs that are sometimes NULL (a NULL store or a NULL test exists): a "
